@@ -44,6 +44,7 @@ struct Args {
 	std::string corpus = "/verif/corpus";
 	long cases = -1; // override of the random-phase case count (whole run, all shards)
 	bool fuzz = false;
+	std::string fuzzSeeds; // libFuzzer build: directory that receives enumerated tapes as the starting corpus
 };
 
 struct Failure {
@@ -196,6 +197,56 @@ namespace detail {
 			.s("expect", "violation")
 			.str();
 	}
+	inline void writeShard(const Harness& h, Run& run, uint64_t detCount, uint64_t randomEvals,
+						   std::chrono::steady_clock::time_point t0) {
+		const Args& args = run.args;
+		// ---- write replay files + shard result
+		std::vector<std::string> vio;
+		for (size_t i = 0; i < run.violations.size(); i++) {
+			auto& f = run.violations[i];
+			char name[256];
+			snprintf(name, sizeof name, "%s/viol_%d_%zu.json", args.outdir.c_str(), args.shard, i);
+			std::ofstream o(name);
+			o << detail::failureJson(h.id, f) << "\n";
+			vio.push_back(J().s("signature", f.signature).s("file", name).s("phase", f.phase).raw("detail", f.detail).str());
+		}
+		{
+			std::string hp = args.outdir + "/hashes_" + std::to_string(args.shard) + ".bin";
+			FILE* hf = fopen(hp.c_str(), "wb");
+			if (hf) {
+				for (auto v : run.nontrivial)
+					fwrite(&v, sizeof v, 1, hf);
+				fclose(hf);
+			}
+		}
+		double wall = std::chrono::duration<double>(std::chrono::steady_clock::now() - t0).count();
+		J maxi;
+		for (auto& kv : run.maxima)
+			maxi.f(kv.first, kv.second);
+		std::string out = J().s("property", h.id)
+							  .n("shard", args.shard)
+							  .u("evaluations", run.evaluations)
+							  .u("enumerated", detCount)
+							  .u("random", randomEvals)
+							  .u("discards", run.discards)
+							  .u("nontrivial_local", run.nontrivial.size())
+							  .raw("classes", jmap_num(run.classes))
+							  .raw("known_hits", jmap_num(run.knownHits))
+							  .raw("suppressed_hits", jmap_num(run.suppressedHits))
+							  .raw("excluded", jmap_num(run.excluded))
+							  .raw("maxima", maxi.str())
+							  .raw("samples", jarr_raw(run.samples))
+							  .raw("violations", jarr_raw(vio))
+							  .raw("notes", jarr_str(run.notes))
+							  .s("rule", h.rule ? h.rule : "")
+							  .f("wall_s", wall)
+							  .str();
+		std::ofstream o(args.outdir + "/shard_" + std::to_string(args.shard) + ".json");
+		o << out << "\n";
+		o.close();
+		fprintf(stderr, "[%s shard %d] evaluations=%llu nontrivial=%zu violations=%zu wall=%.1fs\n", h.id, args.shard,
+				static_cast<unsigned long long>(run.evaluations), run.nontrivial.size(), run.violations.size(), wall);
+	}
 } // namespace detail
 
 inline Args parseArgs(int argc, char** argv) {
@@ -221,6 +272,8 @@ inline Args parseArgs(int argc, char** argv) {
 			a.corpus = next();
 		else if (k == "--cases")
 			a.cases = std::atol(next().c_str());
+		else if (k == "--fuzz-seeds")
+			a.fuzzSeeds = next();
 	}
 	if (a.seed == 0)
 		a.seed = 1;
@@ -228,6 +281,8 @@ inline Args parseArgs(int argc, char** argv) {
 		a.nshards = 1;
 	return a;
 }
+
+#ifndef VF_FUZZ
 
 inline int harnessMain(int argc, char** argv, const Harness& h) {
 	Args args = parseArgs(argc, argv);
@@ -331,53 +386,117 @@ inline int harnessMain(int argc, char** argv, const Harness& h) {
 		unlink(curPath.c_str());
 	}
 
-	// ---- write replay files + shard result
-	std::vector<std::string> vio;
-	for (size_t i = 0; i < run.violations.size(); i++) {
-		auto& f = run.violations[i];
-		char name[256];
-		snprintf(name, sizeof name, "%s/viol_%d_%zu.json", args.outdir.c_str(), args.shard, i);
-		std::ofstream o(name);
-		o << detail::failureJson(h.id, f) << "\n";
-		vio.push_back(J().s("signature", f.signature).s("file", name).s("phase", f.phase).raw("detail", f.detail).str());
-	}
-	{
-		std::string hp = args.outdir + "/hashes_" + std::to_string(args.shard) + ".bin";
-		FILE* hf = fopen(hp.c_str(), "wb");
-		if (hf) {
-			for (auto v : run.nontrivial)
-				fwrite(&v, sizeof v, 1, hf);
-			fclose(hf);
-		}
-	}
-	double wall = std::chrono::duration<double>(std::chrono::steady_clock::now() - t0).count();
-	J maxi;
-	for (auto& kv : run.maxima)
-		maxi.f(kv.first, kv.second);
-	std::string out = J().s("property", h.id)
-						  .n("shard", args.shard)
-						  .u("evaluations", run.evaluations)
-						  .u("enumerated", detCount)
-						  .u("random", randomEvals)
-						  .u("discards", run.discards)
-						  .u("nontrivial_local", run.nontrivial.size())
-						  .raw("classes", jmap_num(run.classes))
-						  .raw("known_hits", jmap_num(run.knownHits))
-						  .raw("suppressed_hits", jmap_num(run.suppressedHits))
-						  .raw("excluded", jmap_num(run.excluded))
-						  .raw("maxima", maxi.str())
-						  .raw("samples", jarr_raw(run.samples))
-						  .raw("violations", jarr_raw(vio))
-						  .raw("notes", jarr_str(run.notes))
-						  .s("rule", h.rule ? h.rule : "")
-						  .f("wall_s", wall)
-						  .str();
-	std::ofstream o(args.outdir + "/shard_" + std::to_string(args.shard) + ".json");
-	o << out << "\n";
-	o.close();
-	fprintf(stderr, "[%s shard %d] evaluations=%llu nontrivial=%zu violations=%zu wall=%.1fs\n", h.id, args.shard,
-			static_cast<unsigned long long>(run.evaluations), run.nontrivial.size(), run.violations.size(), wall);
+	detail::writeShard(h, run, detCount, randomEvals, t0);
 	return 0;
 }
 
+#else // VF_FUZZ: the same property function behind libFuzzer (coverage-guided search over tapes)
+
+// Build: -DVF_FUZZ -Dmain=vf_harness_main -fsanitize=fuzzer. The harness's main() (renamed) is called
+// from LLVMFuzzerInitialize and registers the harness here instead of running it. Every
+// input libFuzzer tries is a tape; a failing verdict is written out at once as a replay file
+// (first per signature) and the campaign continues behind it; counters are written at exit.
+namespace detail {
+	struct FuzzState {
+		Harness h{};
+		Run run;
+		Ctx ctx;
+		std::set<std::string> seenSigs;
+		std::chrono::steady_clock::time_point t0;
+		uint64_t seeds = 0;
+	};
+	inline FuzzState*& fuzzState() {
+		static FuzzState* s = nullptr;
+		return s;
+	}
+	inline void fuzzAtExit() {
+		FuzzState* st = fuzzState();
+		if (!st)
+			return;
+		st->run.cls("engine:libFuzzer", st->run.evaluations);
+		st->run.cls("libFuzzer:seed-tapes", st->seeds);
+		st->run.violations.clear(); // replay files were written when found
+		writeShard(st->h, st->run, 0, st->run.evaluations, st->t0);
+	}
+} // namespace detail
+
+inline int harnessMain(int argc, char** argv, const Harness& h) {
+	auto st = new detail::FuzzState; // never freed: used from atexit
+	detail::fuzzState() = st;
+	st->h = h;
+	st->t0 = std::chrono::steady_clock::now();
+	Run& run = st->run;
+	run.id = h.id;
+	run.args = parseArgs(argc, argv);
+	const Args& args = run.args;
+	if (!args.knownFile.empty()) {
+		std::ifstream kf(args.knownFile);
+		std::string line;
+		while (std::getline(kf, line))
+			if (!line.empty())
+				run.known.push_back(line);
+	}
+	st->ctx.h = &st->h;
+	st->ctx.run = &run;
+	std::string curPath = args.outdir + "/current_" + std::to_string(args.shard) + ".tape";
+	st->ctx.curFd = open(curPath.c_str(), O_CREAT | O_RDWR | O_TRUNC, 0644);
+	// starting corpus: this shard's share of the enumerated tapes (at most ~400), unevaluated
+	if (!args.fuzzSeeds.empty() && h.deterministic) {
+		uint64_t idx = 0, mine = 0;
+		std::vector<std::vector<uint8_t>> all;
+		h.deterministic(run, [&](const std::vector<uint8_t>& tape) {
+			if (static_cast<int>(idx++ % static_cast<uint64_t>(args.nshards)) == args.shard % args.nshards)
+				all.push_back(tape);
+		});
+		size_t stride = all.size() / 400 + 1;
+		for (size_t i = 0; i < all.size(); i += stride) {
+			char name[512];
+			snprintf(name, sizeof name, "%s/seed_%06zu", args.fuzzSeeds.c_str(), i);
+			FILE* f = fopen(name, "wb");
+			if (f) {
+				fwrite(all[i].data(), 1, all[i].size(), f);
+				fclose(f);
+				mine++;
+			}
+		}
+		st->seeds = mine;
+		run.classes.clear();
+	}
+	run.phase = "fuzz";
+	atexit(detail::fuzzAtExit);
+	return 0;
+}
+
+#endif // VF_FUZZ
+
 } // namespace vf
+
+#ifdef VF_FUZZ
+int vf_harness_main(int argc, char** argv); // the harness's main(), renamed by -Dmain=vf_harness_main
+
+extern "C" int LLVMFuzzerInitialize(int* argc, char*** argv) {
+	return vf_harness_main(*argc, *argv);
+}
+
+extern "C" int LLVMFuzzerTestOneInput(const uint8_t* data, size_t size) {
+	auto st = vf::detail::fuzzState();
+	vf::Run& run = st->run;
+	run.haveCandidate = false;
+	int v = vf::detail::propThunk(data, size, &st->ctx);
+	if (v == vf::FAIL && run.haveCandidate) {
+		if (!st->seenSigs.count(run.candidate.signature)) {
+			st->seenSigs.insert(run.candidate.signature);
+			char name[512];
+			snprintf(name, sizeof name, "%s/viol_%d_%zu.json", run.args.outdir.c_str(), run.args.shard, st->seenSigs.size());
+			std::ofstream o(name);
+			o << vf::detail::failureJson(st->h.id, run.candidate) << "\n";
+			o.close();
+			std::ofstream idx(run.args.outdir + "/fuzzviol_" + std::to_string(run.args.shard) + ".txt", std::ios::app);
+			idx << name << "\t" << run.candidate.signature << "\n";
+		}
+		run.suppressed.insert(run.candidate.signature);
+		run.haveCandidate = false;
+	}
+	return 0;
+}
+#endif
